@@ -165,7 +165,12 @@ func (qs *QueryStore) OnQueryChange(cb func(store.QueryChange)) {
 
 // Flush waits for the indexing queue to be cleared.
 func (qs *QueryStore) Flush() {
-	qs.tq.Flush()
+	// The task queue counts a task as done once it is dequeued, so its own
+	// Flush may return while the last index update is still running. Instead
+	// wait for a sentinel task; tasks are handled sequentially in FIFO order.
+	done := make(chan struct{})
+	qs.tq.Do(func() { close(done) })
+	<-done
 }
 
 func (qs *QueryStore) handleChange(id string, before, after interface{}) {
